@@ -83,9 +83,51 @@ def line_ending_run_histories(seed, n):
     return out
 
 
+def mode_change_histories(seed, n):
+    """A path recorded in text-or-binary mode A - by option at `track`, or by `file.track.text_or_binary` - whose content is then
+    EDITED and committed again with `--text-or-binary B` (carry-in | track, with and without --force): every algorithm x every
+    ordered pair A != B of auto / text / binary x contents whose raw and CR/LF-stripped digests differ (CR LF, LF, mixed; with a
+    NUL early, late or not at all, so that `auto` stands for text and for binary).  The command records B, so the new version is
+    addressed by the digest of its bytes under B (o1 clause `address-not-under-recorded-mode`; XvcRepo/Props/C02Mode.lean).
+    Controls: no edit in between (the mode change alone re-hashes, F24), and a last commit without the option under the
+    CONFIGURED mode.  A second path recorded in A stays as it is.  Then delete + recheck."""
+    import random
+    from repo_check import W, T, CI, RC
+    rng = random.Random(f'c02-mode-change-{seed}')
+    pairs = [(a, b) for a in ('binary', 'text', 'auto') for b in ('text', 'binary', 'auto') if a != b]
+    out = []
+    for i in range(n):
+        algo = (i + seed) % 4
+        A, B = pairs[(i // 2) % len(pairs)]
+        by_config = rng.random() < 0.35
+        cfg = {'algo': algo, 'method': rng.choice(['copy', 'copy', 'symlink', 'reflink']), 'tob': A if by_config else rng.choice(['auto', 'text', 'binary'])}
+        e = rng.choice(['txt', 'csv', 'dat', ''])
+        nm = lambda x: x + ('.' + e if e else '')
+        p, q = nm('table'), nm('d/other')
+        def body(v):
+            shape = rng.choice(['crlf', 'crlf', 'lf', 'mixed', 'nul-early', 'nul-late'])
+            t = {'crlf': f'v{v};{i};{seed}\r\nrow;2\r\n', 'lf': f'v{v};{i};{seed}\nrow;2\n', 'mixed': f'v{v};{i};{seed}\r\nrow\nend\r',
+                 'nul-early': f'v{v};{i};{seed}\r\n\x00\n', 'nul-late': f'v{v};{i};{seed}\r\n' + 'y' * 8000 + '\x00\r\n'}[shape]
+            return t.encode()
+        np_ = lambda: rng.random() < 0.5
+        tobA = None if by_config else A
+        h = [W(p, body(1)), W(q, b'other ' + body(1)), T([p, q], tob=tobA, no_parallel=np_())]
+        if i % 5 != 4:
+            h.append(W(p, body(2)))                          # i % 5 == 4: control, the mode alone changes
+        how = ['carryin', 'carryin', 'track', 'carryin-force', 'track-force'][i % 5 if i % 5 != 4 else rng.randrange(5)]
+        C = CI if how.startswith('carryin') else T
+        h.append(C([p], tob=B, force=how.endswith('force'), no_parallel=np_()))
+        if rng.random() < 0.4:
+            h += [W(p, body(3)), CI([p], no_parallel=np_())]          # no option: the configured mode is requested
+        h += [{'op': 'delete', 'path': p}, RC([p, q], no_parallel=np_())]
+        out.append((f"mode-change-{A}{'(config)' if by_config else ''}-to-{B}-{how}-algo{algo}-{i}", cfg, h))
+    return out
+
+
 def extra_corpus(chk):
     quick = chk.tier == 'quick'
-    return same_second_histories(chk.seed, 28 if quick else 280) + line_ending_run_histories(chk.seed, 20 if quick else 200)
+    return same_second_histories(chk.seed, 28 if quick else 280) + line_ending_run_histories(chk.seed, 20 if quick else 200) + \
+        mode_change_histories(chk.seed, 24 if quick else 240)
 
 
 def run(chk):
@@ -97,7 +139,7 @@ def run(chk):
                                     'errors': [f'translator/extract_addr.py: {e}'],
                                     'note': 'the Rust source no longer has the shape the address-format model transcribes; Gen/Addr.lean left as it was'})
     chk.trusted_base.append('translator/extract_addr.py (anchored extraction of the strum prefixes, DIGEST_LENGTH, the two split_at of cache_dir and the file name format; fails loudly)')
-    return rc.run_property(chk, 'C02', ORACLES, restore=RESTORE, extra_corpus=extra_corpus(chk), extra_props=['XvcRepo.Props.C02Chunks'])
+    return rc.run_property(chk, 'C02', ORACLES, restore=RESTORE, extra_corpus=extra_corpus(chk), extra_props=['XvcRepo.Props.C02Chunks', 'XvcRepo.Props.C02Mode'])
 
 
 def replay(chk, data):
